@@ -674,6 +674,9 @@ class VAMTransmissionManagement:
         ):
             self.send_next_vam(vam=vam_to_send)
             return
+        if "lat" not in tpv or "lon" not in tpv or "speed" not in tpv:
+            # Incomplete report: the dynamics triggers cannot be evaluated
+            return
         received_position = (tpv["lat"], tpv["lon"])
         if (
             Utils.euclidian_distance(
